@@ -173,6 +173,26 @@ def expand_grammar(G):
                 pos.remove(a[1])
             else:
                 bound[pos.pop(0)] = subst(a, penv, depth)
+        # alpha-rename the parameters per instantiation (also inside inline Python and counts), so
+        # that binding them one after the other cannot capture a call-site name that an argument
+        # mentions -- T1(k0, k1) = T0(`k1`, `k0`) swaps, it does not alias
+        from .c20 import rename_expr, rename_python
+        n_inst = next(counter)
+        fresh = {p: '%s__i%d' % (p, n_inst) for p in params}
+        bound = {fresh[p]: a for p, a in bound.items()}
+        if t[0] == 'rule':
+            t = ('rule', t[1], [fresh[p] for p in params], rename_expr(t[3], fresh))
+        else:
+            ms = []
+            for m in t[3]:
+                if m[0] in ('field', 'let'):
+                    ms.append((m[0], m[1], rename_expr(m[2], fresh)))
+                elif m[0] == 'pass':
+                    ms.append(('pass', rename_expr(m[1], fresh)))
+                else:
+                    ms.append(('requires', rename_python(m[1], fresh)))
+            t = ('class', t[1], [fresh[p] for p in params], ms)
+        params = t[2]
         new_penv = {}
         lets = []
         for p in params:
